@@ -204,6 +204,11 @@ where
             }
         } else {
             log::warn!("The index is already empty");
+            // The chain is being rewound below the blocks covered by the index, so the window moves down with it:
+            // the next block to be connected will be one lower than the one this index would have expected.
+            if self.blocks.is_empty() {
+                self.tip = self.tip.saturating_sub(1);
+            }
         }
     }
 
